@@ -49,8 +49,11 @@ theorem retry_revision_resolved (g : G) (f : Fault) (w : WEvent) (rest : List WE
   · intro w' rest' _ _ _ h
     rw [stepRetryCommit_dealt] at h
     simp at h
-  · intro w' rest' val _ _ _ _ _
+  · intro w' rest' val _ _ _ _ _ _
     simp [stepRetryCommit, G.notify]
+  · intro _ _ h
+    rw [stepRetryCommit_dealt] at h
+    omega
 
 /-- ... and split: whatever happened since the retry loop's read (any client steps in between), its commit
 step — with every outcome: success, lost compare-and-swap, storage error, unknown outcome — reports the
@@ -157,9 +160,17 @@ theorem unrepaired_stays_queued_atomic (g : G) (f : Fault) (w : WEvent) (rest : 
     cases val with
     | nil => exact absurd rfl hne
     | cons _ _ => rfl
+  by_cases hwf : g.windowFull = true
+  · -- `Deal` refuses: the repair is not even attempted, the head stays
+    have hread : stepRetryRead g = g := by
+      unfold stepRetryRead
+      simp only [hn, hq, hget, hl, bne_self_eq_false, Bool.or_self, Bool.false_eq_true, if_false, hwf, if_true]
+    unfold stepRetry
+    rw [hread]
+    simp [stepRetryCommit, hn, hq]
   have hread : stepRetryRead g = { g with dealt := g.dealt + 1, retryPc := some { w := w, rev := g.dealt + 1, val := val } } := by
     unfold stepRetryRead
-    simp only [hn, hq, hget, hl, bne_self_eq_false, Bool.or_self, Bool.false_eq_true, if_false]
+    simp only [hn, hq, hget, hl, bne_self_eq_false, Bool.or_self, Bool.false_eq_true, if_false, hwf]
   unfold stepRetry
   rw [hread, ← hq]
   exact unrepaired_stays_queued _ f { w := w, rev := g.dealt + 1, val := val } rfl hf hcommit
